@@ -110,15 +110,26 @@ func (s *BaseCompactionStrategy) LoadSSTables() error {
 		s.levels[level] = append(s.levels[level], info)
 	}
 
-	// Sort files within each level by sequence number
+	// Sort files within each level from the oldest to the newest
 	for level, files := range s.levels {
 		sort.Slice(files, func(i, j int) bool {
-			return files[i].Sequence < files[j].Sequence
+			return createdBefore(files[i], files[j])
 		})
 		s.levels[level] = files
 	}
 
 	return nil
+}
+
+// createdBefore orders SSTables from the oldest to the newest: by the creation
+// timestamp in the file name, then by file number. The file number alone does
+// not tell the age - numbering used to restart at 1 with every open, so a
+// database written by an earlier version holds newer files with smaller numbers.
+func createdBefore(a, b *SSTableInfo) bool {
+	if a.Timestamp != b.Timestamp {
+		return a.Timestamp < b.Timestamp
+	}
+	return a.Sequence < b.Sequence
 }
 
 // Close closes all open SSTable readers
